@@ -30,6 +30,22 @@ static void regTree(DOMNode* n, size_t bound) {
     reg(n);
     size_t c = 0;
     for (DOMNode* k = n->getFirstChild(); k && c < 100000; k = k->getNextSibling(), ++c) regTree(k, bound - 1);
+    if (n->getNodeType() == DOMNode::ELEMENT_NODE) {           // the attributes are cloned after the children
+        DOMNamedNodeMap* am = n->getAttributes();
+        for (XMLSize_t a = 0; am && a < am->getLength(); a++) regTree(am->item(a), bound - 1);
+    }
+}
+// release()d nodes: their memory is recycled by the document, they must never be touched again
+static void collectTree(DOMNode* n, std::vector<DOMNode*>& out, size_t bound) {
+    if (!n || bound == 0) return;
+    out.push_back(n);
+    for (DOMNode* k = n->getFirstChild(); k; k = k->getNextSibling()) collectTree(k, out, bound - 1);
+}
+static void markDead(const std::vector<DOMNode*>& v) {
+    for (DOMNode* n : v) {
+        auto it = idx.find(n);
+        if (it != idx.end()) { pool[it->second] = 0; idx.erase(it); }
+    }
 }
 static std::string ix(const DOMNode* n) {
     if (!n) return "-";
@@ -64,6 +80,7 @@ static bool kidsOf(const DOMNode* n, std::vector<DOMNode*>& out) {
 static std::string consistency() {
     for (size_t i = 0; i < pool.size(); i++) {
         DOMNode* n = pool[i];
+        if (!n) continue;
         std::string at = ":" + std::to_string(i);
         std::vector<DOMNode*> ks;
         if (!kidsOf(n, ks)) return "INCONSISTENT:sibling-chain-does-not-end" + at;
@@ -99,6 +116,26 @@ static std::string consistency() {
             if (a == n || ++steps > pool.size()) return "INCONSISTENT:own-ancestor" + at;
         }
         if (n->getNodeType() != DOMNode::DOCUMENT_NODE && !n->getOwnerDocument()) return "INCONSISTENT:no-ownerDocument" + at;
+        // attributes: every Attr in the map names this element as owner, and an owned Attr is in its owner's map
+        if (n->getNodeType() == DOMNode::ELEMENT_NODE) {
+            DOMNamedNodeMap* am = n->getAttributes();
+            for (XMLSize_t a = 0; am && a < am->getLength(); a++) {
+                DOMNode* at2 = am->item(a);
+                if (!idx.count(at2)) return "INCONSISTENT:unknown-attribute" + at;
+                if (((DOMAttr*)at2)->getOwnerElement() != n) return "INCONSISTENT:attribute-ownerElement" + at;
+                for (XMLSize_t b2 = a + 1; b2 < am->getLength(); b2++)
+                    if (am->item(b2) == at2) return "INCONSISTENT:attribute-listed-twice" + at;
+            }
+        }
+        if (n->getNodeType() == DOMNode::ATTRIBUTE_NODE) {
+            DOMElement* oe = ((DOMAttr*)n)->getOwnerElement();
+            if (oe) {
+                DOMNamedNodeMap* am = oe->getAttributes();
+                bool found = false;
+                for (XMLSize_t a = 0; am && a < am->getLength(); a++) if (am->item(a) == n) found = true;
+                if (!found) return "INCONSISTENT:ownerElement-does-not-list-attribute" + at;
+            }
+        }
     }
     return "consistent";
 }
@@ -107,33 +144,25 @@ static std::string dump(const std::string& verdict) {
     std::string out;
     for (size_t i = 0; i < pool.size(); i++) {
         DOMNode* n = pool[i];
+        if (i) out += ' ';
+        if (!n) { out += std::to_string(i) + ":dead"; continue; }
         int t = n->getNodeType();
         bool named = t == DOMNode::ELEMENT_NODE || t == DOMNode::PROCESSING_INSTRUCTION_NODE || t == DOMNode::ENTITY_REFERENCE_NODE ||
                      t == DOMNode::ATTRIBUTE_NODE;
         bool nsd = t == DOMNode::ELEMENT_NODE || t == DOMNode::ATTRIBUTE_NODE;
         bool leaf = t == DOMNode::TEXT_NODE || t == DOMNode::CDATA_SECTION_NODE || t == DOMNode::COMMENT_NODE ||
                     t == DOMNode::PROCESSING_INSTRUCTION_NODE;
-        if (i) out += ' ';
         out += std::to_string(i) + ":" + std::to_string(t) + ":" + (named ? hx(n->getNodeName()) : "-") + "/" + (nsd ? hx(n->getNamespaceURI()) : "-") + ":" +
-               (leaf ? hx(n->getNodeValue()) : "-") + ":" + ix(n->getOwnerDocument()) + ":" + ix(n->getParentNode()) + ":" +
+               ((leaf || t == DOMNode::ATTRIBUTE_NODE) ? hx(n->getNodeValue()) : "-") + ":" + ix(n->getOwnerDocument()) + ":" + ix(n->getParentNode()) + ":" +
                ix(n->getFirstChild()) + ":" + ix(n->getLastChild()) + ":" + ix(n->getPreviousSibling()) + ":" +
                ix(n->getNextSibling()) + ":[";
         std::vector<DOMNode*> ks;
         kidsOf(n, ks);
         for (size_t a = 0; a < ks.size(); a++) { if (a) out += ','; out += ix(ks[a]); }
         out += "]:{";
-        DOMNamedNodeMap* am = n->getAttributes();
-        if (am) {
-            std::vector<std::pair<std::u16string, std::string> > as;
-            for (XMLSize_t a = 0; a < am->getLength(); a++) {
-                DOMNode* at = am->item(a);
-                as.push_back(std::make_pair(std::u16string((const char16_t*)at->getNodeName()),
-                                            hx(at->getNodeName()) + "=" + hx(at->getNodeValue())));
-            }
-            std::sort(as.begin(), as.end());
-            for (size_t a = 0; a < as.size(); a++) { if (a) out += ','; out += as[a].second; }
-        }
-        out += "}";
+        DOMNamedNodeMap* am = t == DOMNode::ELEMENT_NODE ? n->getAttributes() : 0;
+        for (XMLSize_t a = 0; am && a < am->getLength(); a++) { if (a) out += ','; out += ix(am->item(a)); }
+        out += "}:" + (t == DOMNode::ATTRIBUTE_NODE ? ix(((DOMAttr*)n)->getOwnerElement()) : std::string("-"));
     }
     return out + " " + verdict;
 }
@@ -212,6 +241,14 @@ static std::string doOp(const std::vector<std::string>& a) {
         bool leaf = t == DOMNode::TEXT_NODE || t == DOMNode::CDATA_SECTION_NODE || t == DOMNode::COMMENT_NODE ||
                     t == DOMNode::PROCESSING_INSTRUCTION_NODE;
         bool cd = t == DOMNode::TEXT_NODE || t == DOMNode::CDATA_SECTION_NODE || t == DOMNode::COMMENT_NODE;
+        if (o == "sd" && a.size() == 3 && t == DOMNode::ATTRIBUTE_NODE) {
+            std::vector<DOMNode*> dead;
+            for (DOMNode* k = n->getFirstChild(); k; k = k->getNextSibling()) collectTree(k, dead, pool.size() + 2);
+            n->setNodeValue(unhex(a[2]).data());
+            markDead(dead);
+            reg(n->getFirstChild());
+            return "ok";
+        }
         if (o == "sd" && a.size() == 3) {
             if (!leaf) return "skip";
             n->setNodeValue(unhex(a[2]).data());
@@ -236,11 +273,41 @@ static std::string doOp(const std::vector<std::string>& a) {
             reg(nt);
             return "n" + ix(nt);
         }
+        if (o == "sn" || o == "xn") {
+            DOMNode* an = a.size() == 3 ? node(a[2]) : 0;
+            if (t != DOMNode::ELEMENT_NODE || !an || an->getNodeType() != DOMNode::ATTRIBUTE_NODE) return "skip";
+            DOMAttr* r = o == "sn" ? ((DOMElement*)n)->setAttributeNode((DOMAttr*)an) : ((DOMElement*)n)->removeAttributeNode((DOMAttr*)an);
+            return r ? "n" + ix(r) : std::string("ok");
+        }
+        if (o == "gn" && a.size() == 3) {
+            if (t != DOMNode::ELEMENT_NODE) return "skip";
+            DOMAttr* r = ((DOMElement*)n)->getAttributeNode(unhex(a[2]).data());
+            return r ? "n" + ix(r) : std::string("ok");
+        }
         if (o == "sa" || o == "ra" || o == "ga") {
             if (t != DOMNode::ELEMENT_NODE) return "skip";
             DOMElement* e = (DOMElement*)n;
-            if (o == "sa" && a.size() == 4) { e->setAttribute(unhex(a[2]).data(), unhex(a[3]).data()); return "ok"; }
-            if (o == "ra" && a.size() == 3) { e->removeAttribute(unhex(a[2]).data()); return "ok"; }
+            if (o == "sa" && a.size() == 4) {
+                std::vector<XMLCh> nm = unhex(a[2]);
+                DOMAttr* at = e->getAttributeNode(nm.data());
+                std::vector<DOMNode*> dead;
+                if (at) for (DOMNode* k = at->getFirstChild(); k; k = k->getNextSibling()) collectTree(k, dead, pool.size() + 2);
+                e->setAttribute(nm.data(), unhex(a[3]).data());
+                markDead(dead);
+                at = e->getAttributeNode(nm.data());
+                reg(at);
+                if (at) reg(at->getFirstChild());
+                return "ok";
+            }
+            if (o == "ra" && a.size() == 3) {
+                std::vector<XMLCh> nm = unhex(a[2]);
+                DOMAttr* at = e->getAttributeNode(nm.data());
+                std::vector<DOMNode*> dead;
+                collectTree(at, dead, pool.size() + 2);
+                e->removeAttribute(nm.data());
+                if (at && e->getAttributeNode(nm.data()) != at) markDead(dead);
+                return "ok";
+            }
             if (o == "ga" && a.size() == 3) return "s" + hx(e->getAttribute(unhex(a[2]).data()));
             return "bad-op";
         }
